@@ -269,9 +269,11 @@ struct HIo : Harness {
           WArg wa{&m, file, fkind, at, ftorn};
           int st = sim_fork_run(do_write_guarded, &wa);
           static const char *fk[] = {"none", "vfs_io_error", "vfs_disk_full", "vfs_kill", "vfs_short_write"};
-          o.counters[std::string("fault.") + fk[fkind] + (fkind == SIMVFS_KILL && ftorn ? "_torn" : "")]++;
+          o.counters[std::string("fault.planned.") + fk[fkind] + (fkind == SIMVFS_KILL && ftorn ? "_torn" : "")]++;
+          if (st == SIMVFS_KILL_EXIT || st == SIMVFS_FIRED_EXIT) o.counters[std::string("fault.fired.") + fk[fkind] + (fkind == SIMVFS_KILL && ftorn ? "_torn" : "")]++;  // fired, not merely planned
+          if (st == SIMVFS_FIRED_EXIT) o.counters["probe.write_returned_after_injected_error"]++;
           if (st == SIMVFS_KILL_EXIT) o.counters["probe.write_killed_midway"]++;
-          else if (st == 0) o.counters["probe.faulted_write_returned"]++;
+          else if (st == 0 || st == SIMVFS_FIRED_EXIT) o.counters["probe.faulted_write_returned"]++;
           else o.counters["probe.faulted_write_child_died"]++;
           struct stat sb; if (stat((file + "-journal").c_str(), &sb) == 0 && sb.st_size > 0) o.counters["probe.hot_journal_left"]++;
           ref[path].determinate = false; ref[path].model = -1; ref[path].writes++;
